@@ -38,6 +38,18 @@ class Child(HasTraits):
     cmy = PrototypedFrom("mid", prefix="my")
 
 
+class ProtoChild(HasTraits):
+    """A child whose deferring attributes are all prototyped: when every one
+    of them holds a local value the object has no forwarding listener left."""
+    parent = Instance(Target)
+    mid = Instance(Mid)
+    y = PrototypedFrom("parent")
+    px = PrototypedFrom("parent", prefix="x")
+
+
+PROTO_NAMES = ["px", "y"]
+
+
 # deferring attribute -> (kind, delegate attr, target attr)
 DEFER = {
     "x": ("delegate", "parent", "x"),
